@@ -658,9 +658,92 @@ func c06CountCases(yield func(c06Case), thorough bool) {
 	}
 }
 
+// c06ShapeAndPushCases: (1) transactions with two inputs - the checked one first, and the checked
+// one last - for EVERY hash type (the ANYONECANPAY / NONE / SINGLE rules treat "the other inputs"
+// and "my own index" differently); (2) locking scripts whose script code contains a push that is
+// not in its shortest form (the digest is over the script bytes as they are, not re-encoded).
+func c06ShapeAndPushCases(yield func(c06Case), thorough bool) {
+	k0 := keyOf(0)
+	pk := minimalPush(k0.comp)
+	type lk struct {
+		name string
+		b    []byte
+		ms   bool
+	}
+	locks := []lk{
+		{"CHECKSIG", bytesJoin(pk, []byte{0xac}), false},
+		{"P2PKH", refP2PKH(refHash160(k0.comp)), false},
+		{"PUSHDATA1(3) DROP key CHECKSIG", bytesJoin([]byte{0x4c, 3, 7, 8, 9, 0x75}, pk, []byte{0xac}), false},
+		{"PUSHDATA2(3) DROP key CHECKSIG", bytesJoin([]byte{0x4d, 3, 0, 7, 8, 9, 0x75}, pk, []byte{0xac}), false},
+		{"PUSHDATA4(3) DROP key CHECKSIG", bytesJoin([]byte{0x4e, 3, 0, 0, 0, 7, 8, 9, 0x75}, pk, []byte{0xac}), false},
+		{"PUSHDATA2(80) DROP key CHECKSIG", bytesJoin([]byte{0x4d, 80, 0}, fill(80, 0x5a), []byte{0x75}, pk, []byte{0xac}), false},
+		{"key CHECKSIG PUSHDATA1(1)", bytesJoin(pk, []byte{0xac, 0x4c, 1, 1, 0x75}), false},
+		{"key through PUSHDATA1 CHECKSIG", bytesJoin([]byte{0x4c, byte(len(k0.comp))}, k0.comp, []byte{0xac}), false},
+		{"PUSHDATA1(3) DROP 1of1 CHECKMULTISIG", bytesJoin([]byte{0x4c, 3, 7, 8, 9, 0x75, 0x51}, pk, []byte{0x51, 0xae}), true},
+		{"1of1 CHECKMULTISIG", bytesJoin([]byte{0x51}, pk, []byte{0x51, 0xae}), true},
+	}
+	flagSets := []uint32{0, fForkID, fForkID | fStrict, fStrict | fDER | fLowS | fNullFail}
+	for _, l := range locks {
+		for _, shape := range []int{0, 2, 3} {
+			for _, ht := range c06HashTypes {
+				for _, f0 := range flagSets {
+					for era := 0; era < 2; era++ {
+						f := f0
+						if era == 1 {
+							f |= fGenesis
+						}
+						unlockOf := func(sig []byte) []byte {
+							switch {
+							case l.ms:
+								return bytesJoin([]byte{0x00}, minimalPush(sig))
+							case l.name == "P2PKH":
+								return pushAll(sig, k0.comp)
+							}
+							return pushAll(sig)
+						}
+						ph := append(bytes.Repeat([]byte{0x01}, 8), ht)
+						base := scriptCase{Unlock: unlockOf(ph), Lock: l.b, Flags: f, Shape: shape}
+						codes := captureCodes(base)
+						if len(codes) != 1 {
+							continue
+						}
+						rt, amount := base.ctx()
+						forkAlgo := ht&0x40 != 0 && f&fForkID != 0
+						valid := cachedSign(k0, 0, rt, base.idx(), codes[0], amount, ht, forkAlgo, "shape")
+						// the same signature for a transaction whose OTHER input differs in its sequence number, and one
+						// whose checked input does
+						for vi, mut := range []string{"valid", "other-input-sequence-differs", "own-sequence-differs"} {
+							o := *rt
+							o.Ins = append([]txref.In(nil), rt.Ins...)
+							switch vi {
+							case 1:
+								if len(o.Ins) < 2 {
+									continue
+								}
+								o.Ins[1-base.idx()].Seq ^= 0x100
+							case 2:
+								o.Ins[base.idx()].Seq ^= 0x100
+							}
+							sig := valid
+							if vi > 0 {
+								sig = cachedSign(k0, 0, &o, base.idx(), codes[0], amount, ht, forkAlgo, "shape-"+mut)
+							}
+							op := "CHECKSIG"
+							if l.ms {
+								op = "CHECKMULTISIG"
+							}
+							yield(c06Case{scriptCase: scriptCase{Unlock: unlockOf(sig), Lock: l.b, Flags: f, Shape: shape}, Op: op, Sig: mut, Key: "compressed", HT: ht, Extra: "|" + l.name})
+						}
+					}
+				}
+			}
+		}
+	}
+}
+
 func init() {
 	p := register(&Prop{ID: "C06", Level: "exploration",
-		Rule: "exhaustive product with real ECDSA signatures, every case executed in lockstep against the reference model (CHECKSIG/CHECKMULTISIG written after the node's interpreter, certified on the signature vectors of script_tests.json; digests certified on the sighash vectors): CHECKSIG family: 8 locking-script forms (CHECKSIG, NOT, CHECKSIGVERIFY, OP_CODESEPARATOR before the key / before the opcode / unexecuted / later in the script, P2PKH) x 5 key encodings (compressed, uncompressed, hybrid, truncated, empty) x 17 hash types (12 standard, 5 undefined) x 9 signature kinds (valid, over another tx, by another key, over the other digest algorithm, empty, hash-type byte only, high-S, DER-padded, wrong DER length) x ALL 64 subsets of {STRICTENC, DERSIG, LOW_S, NULLDUMMY, NULLFAIL, SIGHASH_FORKID} x both eras x tx shapes (1 in/1 out, no outputs; thorough: 2 inputs); signature-in-script (exact push and substring); valid signatures with a CHOSEN s (n/2-1, n/2, n/2+1, 2^255-1, 2^255; the public key is recovered from the signature) against the LOW_S rule; signature checks in scripts that continue after a top-level OP_RETURN with 0..4 raw bytes (script code with a data tail), and signature checks reached after an UNLOCKING script that ends through a top-level OP_RETURN; for CHECKSIG and P2PKH also with the transaction's checked input already recording ANOTHER spent output (other value and script, as left by FromUTXOs or an earlier Execute): a valid signature, and one made for the recorded value instead of the spent one. CHECKMULTISIG family: every m-of-n with 0<=m<=n<=3, every m-tuple over the slot alphabet {valid by key j for every j, empty, type-only, other tx, high-S, a single byte that occurs inside a public key} (hence every order), dummy {empty, 01}, key mutations, 3 opcode forms, uniform and mixed per-signature hash types, 2/5 hash types, 64 flag subsets x both eras; key and signature counts of every m-of-n with n<=2 in ten number forms (plus 2^31, 2^32, 2^63, 2^64, 2^128, minus 2^64, negative, padded) x 3 opcode forms x 4 flag sets x both eras. Oracle: verdict and every stack snapshot equal the reference. distinct_nontrivial = distinct (script pair, flags) executions",
+		Rule: "exhaustive product with real ECDSA signatures, every case executed in lockstep against the reference model (CHECKSIG/CHECKMULTISIG written after the node's interpreter, certified on the signature vectors of script_tests.json; digests certified on the sighash vectors): CHECKSIG family: 8 locking-script forms (CHECKSIG, NOT, CHECKSIGVERIFY, OP_CODESEPARATOR before the key / before the opcode / unexecuted / later in the script, P2PKH) x 5 key encodings (compressed, uncompressed, hybrid, truncated, empty) x 17 hash types (12 standard, 5 undefined) x 9 signature kinds (valid, over another tx, by another key, over the other digest algorithm, empty, hash-type byte only, high-S, DER-padded, wrong DER length) x ALL 64 subsets of {STRICTENC, DERSIG, LOW_S, NULLDUMMY, NULLFAIL, SIGHASH_FORKID} x both eras x tx shapes (1 in/1 out, no outputs; thorough: 2 inputs); signature-in-script (exact push and substring); valid signatures with a CHOSEN s (n/2-1, n/2, n/2+1, 2^255-1, 2^255; the public key is recovered from the signature) against the LOW_S rule; signature checks in scripts that continue after a top-level OP_RETURN with 0..4 raw bytes (script code with a data tail), and signature checks reached after an UNLOCKING script that ends through a top-level OP_RETURN; for CHECKSIG and P2PKH also with the transaction's checked input already recording ANOTHER spent output (other value and script, as left by FromUTXOs or an earlier Execute): a valid signature, and one made for the recorded value instead of the spent one. CHECKMULTISIG family: every m-of-n with 0<=m<=n<=3, every m-tuple over the slot alphabet {valid by key j for every j, empty, type-only, other tx, high-S, a single byte that occurs inside a public key} (hence every order), dummy {empty, 01}, key mutations, 3 opcode forms, uniform and mixed per-signature hash types, 2/5 hash types, 64 flag subsets x both eras; key and signature counts of every m-of-n with n<=2 in ten number forms (plus 2^31, 2^32, 2^63, 2^64, 2^128, minus 2^64, negative, padded) x 3 opcode forms x 4 flag sets x both eras; two-input transactions (checked input first / last) and locking scripts with non-minimal pushes in the script code (PUSHDATA1/2/4 of 3 and 80 bytes, before and after the check, the key itself through PUSHDATA1; CHECKSIG, P2PKH and 1-of-1 CHECKMULTISIG) x all 17 hash types x 4 flag sets x both eras, with a valid signature and signatures made for a transaction differing in the other input's / the checked input's sequence number. Oracle: verdict and every stack snapshot equal the reference. distinct_nontrivial = distinct (script pair, flags) executions",
 	})
 	sp := NewSpace(p, "sigops", c06Check)
 	p.Run = func(r *rep.Run, thorough bool) {
@@ -692,6 +775,7 @@ func init() {
 		n1 := r.Evals()
 		s.Each(r, func(yield func(c06Case)) { c06MultisigCases(yield, thorough) })
 		s.Each(r, func(yield func(c06Case)) { c06CountCases(yield, thorough) })
+		s.Each(r, func(yield func(c06Case)) { c06ShapeAndPushCases(yield, thorough) })
 		r.Note("checksig_cases", n1)
 		r.Note("checkmultisig_cases", r.Evals()-n1)
 		r.Note("accepted_executions", accepted)
